@@ -5,7 +5,7 @@
    no hypothesis about collisions between replica points (since fix b0007b4 AddNode keeps
    the owner of an occupied point and RemoveNode deletes only points owned by the leaving
    member, which is what the model transcribes). *)
-From Coq Require Import ZArith List Bool Sorting.Sorted.
+From Coq Require Import ZArith List Bool Sorting.Sorted Sorting.Permutation.
 From FV Require Import C17.Model C17.Proofs.
 Import ListNotations.
 Open Scope Z_scope.
@@ -65,10 +65,36 @@ Proof.
 Qed.
 Print Assumptions c17_removed_owns_nothing.
 
-(* the code's binary search over the sorted point list finds the owner of the first point
-   strictly greater than the key's hash, or of the smallest point if there is none *)
-Theorem c17_search_is_successor : forall hash ops key,
+(* The cached point list.  `sortedHash` is a field of the state, rebuilt by updateSortedHash
+   (collect the keys of the map, sort) at the end of every AddNode that adds and of every
+   RemoveNode; lookups read only the cache.  After every history the cache is exactly the
+   key set of the map in strictly increasing order ... *)
+Theorem c17_cache_is_sorted_keys : forall hash ops,
+  sorted_hash (run hash ops) = map fst (circle (run hash ops)) /\
   StronglySorted Z.lt (sorted_hash (run hash ops)) /\
+  (forall p, In p (sorted_hash (run hash ops)) <-> circle_get p (circle (run hash ops)) <> None).
+Proof.
+  intros hash ops. pose proof (inv_run hash ops) as Hi.
+  split; [apply Hi|]. split; [apply sorted_hash_sorted with (hash := hash), Hi|].
+  intros p. destruct Hi as [_ [Hc _]]. rewrite Hc. apply circle_get_keys.
+Qed.
+Print Assumptions c17_cache_is_sorted_keys.
+
+(* ... whatever order `range c.circle` yields the keys in (Go's map iteration order is
+   unspecified): sorting any enumeration of the key set gives the same cache *)
+Theorem c17_cache_any_iteration_order : forall hash ops keys,
+  Permutation keys (map fst (circle (run hash ops))) ->
+  sort_u32 keys = sorted_hash (run hash ops).
+Proof.
+  intros hash ops keys Hp. destruct (inv_run hash ops) as [Hs [Hc _]]. rewrite Hc.
+  apply sort_of_perm; [apply sorted_keys, Hs | exact Hp].
+Qed.
+Print Assumptions c17_cache_any_iteration_order.
+
+(* ... and a lookup through the cache (the code's binary search over sortedHash, then
+   circle[sortedHash[i]]) equals the lookup defined on the map alone: the owner of the first
+   point strictly greater than the key's hash, or of the smallest point if there is none *)
+Theorem c17_search_is_successor : forall hash ops key,
   get_node_by hash key (run hash ops) =
   option_map snd
     (match find (fun e => hash key <? fst e) (circle (run hash ops)) with
@@ -76,9 +102,8 @@ Theorem c17_search_is_successor : forall hash ops key,
      | None => hd_error (circle (run hash ops))
      end).
 Proof.
-  intros hash ops key. split.
-  - apply sorted_hash_sorted with (hash := hash), inv_run.
-  - unfold get_node_by. rewrite get_node_at_spec; [reflexivity | apply (inv_run hash ops)].
+  intros hash ops key. destruct (inv_run hash ops) as [Hs [Hc _]].
+  unfold get_node_by. rewrite get_node_at_spec; [reflexivity | exact Hs | exact Hc].
 Qed.
 Print Assumptions c17_search_is_successor.
 
@@ -109,7 +134,7 @@ Proof. vm_compute. repeat split; auto 30. Qed.
 
 Example c17_example_ring :
   let s := run fnv1a [Add n151; Add zed; Add n2186] in
-  circle s <> [] /\ length (circle s) = 56%nat /\
+  circle s <> [] /\ length (circle s) = 56%nat /\ length (sorted_hash s) = 56%nat /\
   circle_get 1052282076 (circle s) = Some n151 /\
   (* re-adding a member leaves membership, and the ring, unchanged *)
   step fnv1a s (Add n2186) = s /\
